@@ -61,7 +61,8 @@ type Meta struct {
 var msgWords = []string{"Alpha", "Bravo", "Charlie", "Delta", "Echo", "Foxtrot", "Golf", "Hotel", "India", "Juliet", "Kilo", "Lima",
 	"Mike", "November", "Oscar", "Papa", "Quebec", "Romeo", "Sierra", "Tango", "Uniform", "Victor", "Whiskey", "Xray", "Yankee", "Zulu"}
 var fieldWords = []string{"apple", "bread", "cherry", "dough", "eggs", "flour", "grape", "honey", "icing", "jam", "kale", "lemon",
-	"mango", "nut", "olive", "pear", "quince", "rice", "salt", "tea", "udon", "vanilla", "wheat", "yam", "zest", "id", "url", "ttl", "ip", "x"}
+	"mango", "nut", "olive", "pear", "quince", "rice", "salt", "tea", "udon", "vanilla", "wheat", "yam", "zest", "id", "url", "ttl", "ip", "x",
+	"subpackage", "import", "typed"}
 
 var commentPool = []string{
 	" Simple comment\n",
@@ -236,7 +237,7 @@ func castTypeFor(scalar string) string {
 func (x *g) decorate(f *desc.Field) {
 	if x.r.P(25) {
 		var t string
-		switch x.r.Intn(6) {
+		switch x.r.Intn(9) {
 		case 0:
 			t = ""
 		case 1:
@@ -245,6 +246,12 @@ func (x *g) decorate(f *desc.Field) {
 			t = x.attrName("_t") + ",omitempty"
 		case 3:
 			t = "-,omitempty"
+		case 4: // empty name part followed by options: the name falls back to snake_case
+			t = ",omitempty"
+		case 5:
+			t = ",string,omitempty"
+		case 6:
+			t = x.attrName("_t") + ",omitempty,string"
 		default:
 			t = x.attrName("_t")
 		}
